@@ -802,14 +802,30 @@ static var Zip_Iter_Init(var self) {
   return values;
 }
 
+static size_t Zip_Item_Len(var iter) {
+  if (implements_method(iter, Len, len)) { return len(iter); }
+  size_t n = 0;
+  foreach (item in iter) { n++; }
+  return n;
+}
+
 static var Zip_Iter_Last(var self) {
   struct Zip* z = self;
   struct Tuple* values = z->values;
   struct Tuple* iters = z->iters;
   size_t num = len(iters);
   if (num is 0) { return Terminal; }
+  size_t mlen = Zip_Item_Len(iters->items[0]);
+  for (size_t i = 1; i < num; i++) {
+    size_t n = Zip_Item_Len(iters->items[i]);
+    mlen = n < mlen ? n : mlen;
+  }
   for (size_t i = 0; i < num; i++) {
+    size_t n = Zip_Item_Len(iters->items[i]);
     var last = iter_last(iters->items[i]);
+    for (; n > mlen; n--) {
+      last = iter_prev(iters->items[i], last);
+    }
     if (last is Terminal) { return Terminal; }
     values->items[i] = last;
   }
